@@ -423,7 +423,7 @@ pub fn run_scenario(sc: &Scenario, plan: Option<Plan>, random: Option<u32>, dec:
         *k.extra.borrow_mut() = Some(Box::new(f));
     }
     sim.set_kernel(&k);
-    let ctx = Ctx { dir: dir.clone(), k: &k, port: 20000 + (unsafe { libc::getpid() } % 20000) as u16 + (slot % 4) as u16 };
+    let ctx = Ctx { dir: dir.clone(), k: &k, port: 20000 + ((unsafe { libc::getpid() } as u32 * 4 + (slot % 4) as u32) % 40000) as u16 };
     let mut result_ok = false;
     let mut panic_v = None;
     let mut mid: Vec<i32> = Vec::new();
@@ -576,7 +576,7 @@ impl Check for C12 {
         12
     }
     fn rule(&self) -> String {
-        "enumeration part (complete): for each of the scenarios in c12.rs (public fd-creating operations incl. invalid-argument variants), pass 1 records the system-call trace on the real kernel, then every call index of that trace (parent side, and child side of fork for spawn) is failed - the call is not executed - with every plausible errno of that call (table in simk::fdm); plus the fault-free run; the fault-free run and one errno per call index are repeated with descriptor 0 closed beforehand (the kernel then hands out 0 to the operation). seeded part: scenario drawn by seed, every call fails with probability 1..4/64 (multi-fault). Oracle after each run: the process's real descriptor set (/proc/self/fd) after dropping the operation's results equals the set before; the model flags a close of a descriptor the scenario neither opened nor was given and a second close of the same descriptor. non-trivial = a fault actually fired; distinct = hash of (scenario, trace, plan, outcome)".into()
+        "enumeration part (complete): for each of the scenarios in c12.rs (public fd-creating operations incl. invalid-argument variants), pass 1 records the system-call trace on the real kernel, then every call index of that trace (parent side, and child side of fork for spawn) is failed - the call is not executed - with every plausible errno of that call (table in simk::fdm); plus the fault-free run; the fault-free run and one errno per call index are repeated with descriptor 0 closed beforehand (the kernel then hands out 0 to the operation). seeded part: scenario drawn by seed, every call fails with probability 1..4/64 (multi-fault). Oracle after each run: the process's real descriptor set (/proc/self/fd) after dropping the operation's results equals the set before; the model flags a close of a descriptor the scenario neither opened nor was given and a second close of the same descriptor (a descriptor handed to the operation by the caller may be closed by it once). non-trivial = a fault actually fired; distinct = hash of (scenario, trace, plan, outcome)".into()
     }
     fn assumptions(&self) -> Vec<String> {
         vec![
